@@ -1,2 +1,19 @@
-/- C05 — property theorems (being extended); the reader model these will be about: -/
-import E57.Model.Simple
+/-
+C05 — Simple reader equals the documented view of the raw data.
+
+Main theorems (E57/Proofs/SimpleView.lean, on E57/Model/Simple.lean; `Float` operations are kept
+uninterpreted, so every statement holds for any interpretation of the arithmetic):
+ * `postProcess_eq_map`   four passes over a batch = per-point composition `perPoint`
+ * `simple_next_spec`     exact five-way description of one `next`
+ * `simple_eq_map_raw`    same queue/reader/records: if every raw item is a value and every view of the
+                          points made available succeeds, both iterators yield `records` items, the k-th
+                          simple point is `fullView` of the k-th raw point, then `done` forever
+ * `simple_eq_map_raw_statement_false`  the unconditional version is FALSE for the model (and the crate): the
+                          simple iterator also views points beyond `recordCount` that a packet makes available,
+                          so a bad invalid-state value past the end makes it fail where the raw iterator is fine
+ * `simple_count`         never more than `records` values
+ * `simple_fails_only_where`, `viewPoint_none_iff`   an error means the refill failed (then the raw iterator
+                          fails too) or a stored invalid-state value is outside {0,1,2} / {0,1}
+ * `locality_transform/_s2c/_c2s/_i2c/_nc/_ni`   which fields each option switch can influence
+-/
+import E57.Proofs.SimpleView
